@@ -47,10 +47,12 @@ CLAIMED = {
          'sign and determinant of the pivot permutation = (-1)^#{i: piv i != i} for all N and all pivot vectors; the list-level loop of utils.piv2mat computes exactly that permutation and eye[:,swap] is its transposed permutation matrix. as_utpm, combine_blocks, ndarray2utpm are '
          'tied by the oracle only (partial); all pivot vectors for N<=4 (quick) / N<=5 (thorough) are enumerated against scipy.linalg.lu_factor.')),
  'C16': dict(
-   technique='Lean 4 theorems (iteratedDeriv n f x = closed form, by the chain "order n+1 is the derivative of order n") + correspondence + contour-integral oracle',
-   text=('Theorems for every order n and every point of the domain: iteratedDeriv n f x equals the closed form of the model for exp, exp2, expm1, log, log2/log10, log1p, sqrt, square, negative, reciprocal, '
-         'sin, cos, sinh, cosh, arctanh, erf and erfi (finite Hermite-type sums, for the concrete c*int_0^x exp(-+s^2) ds and every antiderivative of c exp(-+y^2)); gammaln/psi/polygamma and hyperu relative to the first-order relations of their SciPy leaves; the piecewise functions (rint, fix, floor, ceil, trunc, sign: every locally constant function; absolute) away from jumps and kinks. arctan, arcsin, arccos, arcsinh, arccosh '
-         'are modelled exactly (Gaussian rationals) and tied by correspondence plus an independent Cauchy-integral oracle on the implementation, without an all-n theorem yet (partial).')),
+   technique='Lean 4 theorems (iteratedDeriv n f x = closed form, by the chain "order n+1 is the derivative of order n"; Legendre derivative identity from Bonnet recurrence; Hermite-type coefficient formula) + correspondence + contour-integral oracle',
+   text=('Theorems for every order n and every point of the domain, for every function nthderiv exports in this environment: iteratedDeriv n f x equals the closed form of the model for exp, exp2, expm1, log, log2/log10, log1p, sqrt, square, negative, reciprocal, '
+         'sin, cos, sinh, cosh, arctanh, arctan (partial fractions over x -+ i, interpreted in C), arcsin, arccos, arcsinh, arccosh (Legendre polynomials by the three-term recurrence as eval_legendre is modelled; (1-X^2)P_n\' = (n+1)(X P_n - P_{n+1}) proved from the recurrence), '
+         'erf and erfi (finite Hermite-type sums, for c*int_0^x exp(-+s^2) ds and every antiderivative of c exp(-+y^2)); gammaln/psi/polygamma and hyperu relative to the first-order relations of their SciPy leaves (Mathlib has no polygamma / Tricomi U); '
+         'the piecewise functions away from jumps and kinks (every locally constant function: rint, fix, floor, ceil, trunc, sign; absolute; clip with its interval indicator). The same generic definitions are evaluated in Gaussian rationals by the driver and tied to nthderiv.py by the correspondence run plus an independent Cauchy-integral oracle on the implementation; '
+         'tan/tanh need mpmath, which is absent, and are not exported here (partial: leaves of gamma/hyperu families are SciPy values, floats).')),
  'C03': dict(
    technique='Lean 4 theorem (cell-level tape: reverse sweep is the adjoint of the tangent sweep, any commutative ring, overwrites) + local adjoint lemmas + adjoint-identity oracle',
    text=('Theorem for every tape, heap, tangent and seed over any commutative ring (A = R[t]/(t^D)): <rev tape h seed, dh> = <seed, tan tape h dh>, with in-place overwrites (also buf[i]=buf[i]); local adjoint '
